@@ -461,6 +461,12 @@ class Evaluator:
             k = s["k"]
             if any(a["path"] == "cfg" and 'feature = "syn2"' in a["tokens"] and "not" not in a["tokens"] for a in (s.get("attrs") or [])):
                 continue  # the syn2 half of a cfg pair (C18 compares the halves); the default configuration is analysed
+            if k == "ItemStmt" and isinstance(s.get("item"), dict) and s["item"].get("k") in ("Const", "Static") and isinstance(s["item"].get("expr"), dict):
+                try:
+                    env[s["item"]["name"]] = self.eval(s["item"]["expr"], env)
+                except Unsupported:
+                    pass
+                continue
             if k == "Let":
                 if "init" in s:
                     v = self.eval(s["init"], env)
